@@ -117,11 +117,17 @@ def accounting(ctx, spec, T, seed):
             c = rows[:, sl.index("Cnt%d" % j)]; d = rows[:, sl.index("Dlv%d" % j)]
             tf = [T[i] for i in range(len(T)) for _ in range(int(c[i] - (c[i - 1] if i else x0[sl.index("Cnt%d" % j)])))]
             td = [T[i] for i in range(len(T)) for _ in range(int(d[i] - (d[i - 1] if i else 0)))]
+            span = (len(T) - 1) * dt          # a delay beyond the queue's span is clamped to its last slot (C20)
             for k in range(len(td)):
                 # rows show the state at a grid time *before* the event at that time is applied: allow two steps
                 if not (tf[k] + tau - 2.5 * dt <= td[k] <= tf[k] + tau + 2.5 * dt) and tf[k] + tau < T[-1] - 2 * dt:
                     ctx.violation("delivery-time", "reaction %d: delivery %d reported at t=%g for a firing reported at t=%g with delay %g" % (j, k, td[k], tf[k], tau),
                                   dict(rep, reaction=j, k=k))
+                    return
+                # whatever the horizon: nothing is delivered before its time (or before the last slot of the queue)
+                if td[k] < tf[k] + min(tau, span) - 2.5 * dt:
+                    ctx.violation("delivery-time/early", "reaction %d: delivery %d reported at t=%g, before its time: the firing was reported at t=%g and the delay is %g"
+                                  % (j, k, td[k], tf[k], tau), dict(rep, reaction=j, k=k))
                     return
             ctx.count("fixed_delay_deliveries_timed", len(td))
     ctx.count("accounting_runs")
@@ -203,6 +209,17 @@ def run(ctx):
         if i % 3 == 0:
             corr(ctx, spec, T, seeds[:2], kind="delayvolume")
         accounting(ctx, spec, np.linspace(0, 5.0, 501), seeds[0])
+        # fixed delays placed relative to the simulated horizon (the queue has as many slots as grid points):
+        # just inside, at, and just beyond it
+        fixed = [r for r in spec["reactions"] if (r.get("delay") or {}).get("type") == "fixed"]
+        if fixed:
+            Th = np.linspace(0, 2.0, 41)
+            dth = float(Th[1] - Th[0])
+            for off in (-1.0, -0.4, 0.0, 0.2, 0.45, 1.0, 3.0):
+                sp2 = dict(spec, params=dict(spec["params"]))
+                for r in fixed:
+                    sp2["params"][r["delay"]["delay"]] = len(Th) * dth + off * dth
+                accounting(ctx, sp2, Th, seeds[0])
     sampler_corr(ctx, rng)
     zero_delay_law(ctx, 3000 if ctx.quick() else 200000, 5000 * ctx.seed + 3)
 
